@@ -157,7 +157,7 @@ def r1_gate(rep, ctx):
                 n += 1
                 ok = f2.cls == "FixedArray" and f2.name in ("__init__", "_InternalCreateWithQuantity")
                 rep.check(ok, "C11.R1", "writer:_dimension:%s" % f2.qual.split(".", 2)[-1] + ":%d" % n, "_dimension is stored by %s" % f2.name, "_dimension is stored by %s, outside the gate" % f2.qual, node=x, fn=f2)
-    rep.floor("C11.R1", "stores of _dimension", n, 3)
+    rep.floor("C11.R1", "stores of _dimension", n, 1)
 
 
 def r2_routes(rep, ctx):
@@ -342,4 +342,4 @@ def r4_curve(rep, ctx):
                         okc = True
             rep.check(okc, "C11.R4", "Curve.%s:store:%s" % (fn.name, attr), "the store of %s is dominated by the length check of the new (image, domain) pair" % attr,
                       "Curve.%s stores %s without a dominating length check of the pair it will hold afterwards" % (fn.name, attr), node=st, fn=fn)
-    rep.floor("C11.R4", "stores of _image/_domain", n, 4)
+    rep.floor("C11.R4", "stores of _image/_domain", n, 2)
